@@ -427,7 +427,14 @@ def domInit (j : Json) : Except String (St × Json) := do
     | .error e => return (st0, jErr (errStr e))
     | .ok bs =>
       let tols := boundsTol sp.entries
-      let jb := (bs.zip tols).map (fun (b, t) => jArr [jRat b.1, jRat b.2, jRat t])
+      -- fixed last position: the encoder of the last hyperparameter may take a free index decision
+      let lastAlts : List (List Rat) := match vl, sp.entries.getLast? with
+        | some v, some (_, r) => match encodeRes c r v with
+          | .ok cols => cols.map (fun col => col.drop 2)
+          | .error _ => []
+        | _, _ => []
+      let alts : List (List Rat) := List.replicate (bs.length - lastAlts.length) [] ++ lastAlts
+      let jb := ((bs.zip tols).zip alts).map (fun ((b, t), a) => jArr ([jRat b.1, jRat b.2, jRat t] ++ a.map jRat))
       return ({ st0 with space := some sp },
         jOut (jObj [("keys", jArr (sp.entries.map (fun e => Json.str e.1))),
                     ("ndarray_size", jNat sp.ndarraySize), ("bounds", jArr jb)]))
